@@ -229,7 +229,7 @@ func runWide() {
 						seen[res.st.key()] = struct{}{}
 					}
 					if res.grey {
-						r.Add("wide_grey_zone", 1)
+						r.Add("wide_within_cap_only_after_removals", 1)
 					}
 					op := opRec{Kind: "upd", Changes: w.cs}
 					recordFindings(fs, vcase{Check: "wide", Vector: vec, Op: &op, Wide: true, State: st.String()})
@@ -237,6 +237,7 @@ func runWide() {
 			}
 		}
 	}
+	runNearCap(seen)
 	r.Add("wide_distinct_states", int64(len(seen)))
 	r.Add("states", int64(len(seen)))
 	r.Require(r.DistinctCount("wide_total_buckets") == 5, "wide phase: not every total class (<=cap, <2^62, <2^63, <2^64, >=2^64) was offered")
@@ -251,4 +252,154 @@ func replayWide(c vcase) []finding {
 	}
 	_, _, fs := checkWide(&node{vs: vs, st: extract(vs)}, c.Op.Changes)
 	return fs
+}
+
+// ---------------------------------------------------------------------------------------------
+// near-cap replacement sets: ONE change set that removes a validator and adds / raises another, on
+// sets whose total is at or just below the cap, so that "current total + update deltas" exceeds the
+// cap while the total of the resulting set does not (and the neighbouring cases where it does).
+
+func nearCapRoots() [][]int64 {
+	h := capv / 2 // 2^59-1; two of them total cap-1
+	q := capv / 4
+	return [][]int64{{h, h}, {h + 1, h}, {h + 1, h - 1}, {capv - 10, 10}, {capv - 1, 1}, {capv - 11, 10}, {h, q, q}, {h, q + 1, q + 1}}
+}
+
+// nearCapChangeSets: every removal (one member, or two members of a three-member set) combined with
+// every gain entry: a newcomer, or a raise of a remaining member, with powers that take the
+// resulting total to cap-5, cap-1, cap, cap+1 and with the fixed near-cap powers; plus the
+// three-entry form remove + add + raise.
+func nearCapChangeSets(st state) [][]entry {
+	T := st.total()
+	var fresh []int
+	for _, a := range wideNewAddrs() {
+		if _, in := st.has(a); !in {
+			fresh = append(fresh, a)
+		}
+	}
+	var out [][]entry
+	legal := func(p *big.Int) (int64, bool) {
+		if p.Sign() <= 0 || p.Cmp(capBig) > 0 {
+			return 0, false
+		}
+		return p.Int64(), true
+	}
+	targets := []*big.Int{new(big.Int).Sub(capBig, bi(5)), new(big.Int).Sub(capBig, bigOne), capBig, new(big.Int).Add(capBig, bigOne)}
+	fixed := []int64{1, 10, capv / 2, capv/2 + 1, capv - 10, capv - 5, capv - 1, capv}
+	var removalSets [][]sval
+	for _, m := range st.Vals {
+		removalSets = append(removalSets, []sval{m})
+	}
+	if len(st.Vals) == 3 {
+		removalSets = append(removalSets, []sval{st.Vals[1], st.Vals[2]}, []sval{st.Vals[0], st.Vals[2]})
+	}
+	for _, rm := range removalSets {
+		var rmEntries []entry
+		rest := new(big.Int).Set(T)
+		gone := map[int]bool{}
+		var goneSum int64
+		for _, m := range rm {
+			rmEntries = append(rmEntries, entry{m.A, 0, "remove"})
+			rest.Sub(rest, bi(m.P))
+			gone[m.A] = true
+			goneSum += m.P
+		}
+		with := func(gain ...entry) { out = append(out, append(append([]entry{}, rmEntries...), gain...)) }
+		// newcomer
+		powers := map[int64]bool{goneSum: true}
+		for _, f := range fixed {
+			powers[f] = true
+		}
+		for _, t := range targets {
+			if p, ok := legal(new(big.Int).Sub(t, rest)); ok {
+				powers[p] = true
+			}
+		}
+		var ps []int64
+		for p := range powers {
+			if p >= 1 && p <= capv {
+				ps = append(ps, p)
+			}
+		}
+		sortInt64(ps)
+		for _, p := range ps {
+			with(entry{fresh[0], p, "add:nearcap"})
+		}
+		// raise of a remaining member
+		for _, o := range st.Vals {
+			if gone[o.A] {
+				continue
+			}
+			others := new(big.Int).Sub(rest, bi(o.P))
+			raise := map[int64]bool{}
+			if p, ok := legal(new(big.Int).Add(bi(o.P), bi(goneSum))); ok {
+				raise[p] = true
+			}
+			for _, t := range targets {
+				if p, ok := legal(new(big.Int).Sub(t, others)); ok {
+					raise[p] = true
+				}
+			}
+			var rs []int64
+			for p := range raise {
+				rs = append(rs, p)
+			}
+			sortInt64(rs)
+			for _, p := range rs {
+				with(entry{o.A, p, "set:nearcap"})
+			}
+			// remove + add half + raise by the other half (resulting total = current total), and one more
+			if half := goneSum / 2; half >= 1 {
+				for _, extra := range []int64{0, 1} {
+					if p, ok := legal(new(big.Int).Add(bi(o.P), bi(goneSum-half+extra))); ok {
+						with(entry{fresh[0], half, "add:nearcap"}, entry{o.A, p, "set:nearcap"})
+					}
+				}
+			}
+		}
+	}
+	return out
+}
+
+func sortInt64(a []int64) {
+	for i := 1; i < len(a); i++ {
+		for j := i; j > 0 && a[j-1] > a[j]; j-- {
+			a[j-1], a[j] = a[j], a[j-1]
+		}
+	}
+}
+
+func runNearCap(seen map[string]struct{}) {
+	for _, vec := range nearCapRoots() {
+		vs, st, cfs := checkConstruct(vec)
+		r.Add("transitions", 1)
+		recordFindings(cfs, vcase{Check: "construct", Vector: vec, Wide: true})
+		if vs == nil || len(cfs) > 0 {
+			continue
+		}
+		root := &node{vs: vs, st: st}
+		for _, cs := range nearCapChangeSets(st) {
+			res, _, fs := checkWide(root, cs)
+			r.Add("nearcap_change_sets", 1)
+			r.Add("nearcap_executions", int64(res.execs))
+			r.Add("transitions", int64(res.execs))
+			switch {
+			case res.rej != rejNone:
+				r.Add("nearcap_rejected_by_reference_"+res.rej, 1)
+			case res.grey:
+				r.Add("nearcap_valid_within_cap_only_after_removals", 1)
+			default:
+				r.Add("nearcap_valid_other", 1)
+			}
+			if res.accepted {
+				r.Add("nearcap_accepted", 1)
+				r.Add("transitions", 2)
+				seen[res.st.key()] = struct{}{}
+			}
+			op := opRec{Kind: "upd", Changes: cs}
+			recordFindings(fs, vcase{Check: "wide", Vector: vec, Op: &op, Wide: true, State: st.String()})
+		}
+	}
+	r.Require(r.Get("nearcap_valid_within_cap_only_after_removals") >= 50 && r.Get("nearcap_rejected_by_reference_"+rejCap) > 0 && r.Get("nearcap_accepted") > 0,
+		"near-cap phase: too few replacement sets that are within the cap only after the removals, or none above the cap, or none accepted")
 }
